@@ -29,7 +29,8 @@ LEVEL_TEXT = ("Lean 4 theorems, for every validation module (an arbitrary functi
               "earlier values, improvement iff strict new minimum, counter = trailing run of non-improving invocations, "
               "stop requested at the first invocation preceded by `patience` such ones and never when disabled.  Tied to "
               "/repo on every run by exact differential execution of the real jinns.solve with exhaustively enumerated "
-              "outcome scripts and with the real ValidationLoss.")
+              "outcome scripts and with the real ValidationLoss."
+              "  Holds.C19VL (outcomes re-derived from the observed criteria by the wording of the property, NaN-aware) is proved of every model run with a ValidationLoss module (holdsC19VL_model; nothing is left partial).")
 LEVEL_NOTE = ("Trusted: Lean kernel + {propext, Classical.choice, Quot.sound}; the models' tie to the code is "
               "differential; a NaN criterion is outside the ValidationLoss model (comparison false); the counter / best "
               "value of ValidationLoss are not returned by solve and are observed through their effects (criteria, stop "
